@@ -256,17 +256,17 @@ func (h *Hist) vobs(vp base.Voteproof) string {
 	}
 	maj := "None"
 	if a.maj >= 0 {
-		maj = fmt.Sprintf("(Some %d)", a.maj+1)
+		maj = fmt.Sprintf("(Some %d)", h.w.facts[a.maj].fid)
 	}
 	sfs := append([]aSF{}, a.sfs...)
 	sort.SliceStable(sfs, func(i, j int) bool { return sfs[i].node < sfs[j].node })
 	ss := make([]string, len(sfs))
 	for i, s := range sfs {
-		ss[i] = fmt.Sprintf("(%d, %d)", s.node, s.fact+1)
+		ss[i] = fmt.Sprintf("(%d, %d)", s.node, h.w.facts[s.fact].fid)
 	}
 	ex := make([]int64, len(a.ex))
 	for i, e := range a.ex {
-		ex[i] = int64(e + 1)
+		ex[i] = int64(h.w.expels[e].eid)
 	}
 	k := []string{"VPlain", "VExpel", "VStuck"}[a.kind]
 	return fmt.Sprintf("(mkVO 0 %s %d %s [%s]%%Z %s %s)", spC(a.h, a.r, a.stage), a.th10, maj, strings.Join(ss, "; "), vh.ZList(ex), k)
